@@ -221,7 +221,12 @@ Tails == {<<>>, <<255>>}
 \* needs at least 8 bytes, more than the bound L of the plain strings)
 PayloadStrs == {ToLE(n, 4) \o t : n \in 0..7, t \in Strs(6, {0, 1})}
 HasPayload(p) == \E i \in 1..Len(p) : p[i].op = "Payload"
+\* programs that start with an 8-byte length prefix also get the prefixes around the largest int (2^63-1 = ff..ff 7f little endian:
+\* "offset + length" wraps there), around 2^62 and just above 2^63, followed by a short tail (the plain strings are too short for 8 bytes)
+Wide8Strs == {<<lo, 255, 255, 255, 255, 255, 255, hi>> \o t : lo \in {247, 248, 255}, hi \in {63, 127, 128}, t \in Strs(2, {0})}
+HasWide8(p) == p[1].op \in {"VarBytes", "String", "Seq"} /\ p[1].a = 8
 TotalStrs(p) == Strs(L, Alphabet) \cup (IF HasPayload(p) /\ Len(p) = 1 THEN PayloadStrs ELSE {})
+                                 \cup (IF HasWide8(p) THEN Wide8Strs ELSE {})
 \* (a program that ends with ConsumedAll must of course reject a tail)
 TailsFor(p) == IF \E i \in 1..Len(p) : p[i].op = "All" THEN {<<>>} ELSE Tails
 
